@@ -247,7 +247,7 @@ def build(tier, seed):
     if tier == "quick":
         sizes = [(3, [(0, 0), (1, 0)], 5, 1)]
     else:
-        sizes = [(3, [(0, 0), (1, 0), (2, 0), (0, 1), (1, 2)], 24, 4), (4, [(0, 0), (1, 0)], 3, 0)]
+        sizes = [(3, [(0, 0), (1, 0), (2, 0), (0, 1), (1, 2)], 20, 3), (4, [(0, 0), (1, 0)], 2, 0)]
     turn = 0
     for (n, tmpl, per, per_speed) in sizes:
         for (o, b, l, tw) in VARIANTS:
@@ -340,16 +340,33 @@ class MTVRP(Adapter):
                                                  dtype=torch.float32)}, batch_size=[B])
 
     @staticmethod
-    def _int(x, unit):
-        v = float(x) * unit
+    def _int(v, unit):
+        v = v * unit
         iv = int(round(v))
-        return iv if abs(v - iv) < 1e-6 else -999999     # inexact bookkeeping shows up as drift / M_Step
+        return iv if abs(v - iv) < 1e-6 else -999999     # inexact bookkeeping shows up as drift
+
+    _cache = (None, None)
+
+    def _rows(self, td):
+        """the bookkeeping tensors of a whole batch as python lists (project is called row by row)"""
+        key = (td["current_node"], td["current_time"], td["visited"])   # _step stores NEW tensors
+        old = self._cache[0]
+        if old is None or any(x is not y for x, y in zip(old, key)):
+            B = td.shape[0]
+            self._cache = (key, {
+                "cur": td["current_node"].reshape(B, -1)[:, 0].tolist(),
+                "t": td["current_time"].reshape(B, -1)[:, 0].double().tolist(),
+                "len": td["current_route_length"].reshape(B, -1)[:, 0].double().tolist(),
+                "ulh": td["used_capacity_linehaul"].reshape(B, -1)[:, 0].double().tolist(),
+                "ubh": td["used_capacity_backhaul"].reshape(B, -1)[:, 0].double().tolist(),
+                "visited": td["visited"].tolist()})
+        return self._cache[1]
 
     def project(self, td, r, inst):
-        g = inst["grid"]
-        return {"cur": int(td["current_node"].reshape(td.shape[0], -1)[r, 0]),
-                "t": self._int(td["current_time"][r, 0], g),
-                "len": self._int(td["current_route_length"][r, 0], g),
-                "ulh": self._int(td["used_capacity_linehaul"][r, 0], CAP_UNIT),
-                "ubh": self._int(td["used_capacity_backhaul"][r, 0], CAP_UNIT),
-                "visited": [int(i) for i in td["visited"][r].nonzero().flatten().tolist()]}
+        g, d = inst["grid"], self._rows(td)
+        return {"cur": int(d["cur"][r]),
+                "t": self._int(d["t"][r], g),
+                "len": self._int(d["len"][r], g),
+                "ulh": self._int(d["ulh"][r], CAP_UNIT),
+                "ubh": self._int(d["ubh"][r], CAP_UNIT),
+                "visited": [k for k, x in enumerate(d["visited"][r]) if x]}
